@@ -32,4 +32,121 @@ PLANS = {
                     "B: random well-formed messages (full-range values, up to 255 arguments, long strings, all payload kinds, both byte orders) serialised and "
                     "parsed by the crate with 7 trailing byte strings; TLC checks WellFormed(m), bytes = EncMessage(m), every result = (m, Len(bytes)), rest = suffix.",
     ),
+    "C02": dict(
+        sany=["DltCodec.tla", "mc/MCMutate.tla", "trace/TraceSlice.tla"],
+        steps=[
+            mc("mutate", "MCMutate", "MCMutate_quick.cfg", "MCMutate_thorough.cfg", replay=("slice", "verdict"), workers=12),
+            mc("codec", "MCCodec", "MCCodec_quick.cfg", "MCCodec_thorough.cfg", replay=("slice", "enc")),
+            mc("session", "MCSession", "MCSession_quick.cfg", "MCSession_thorough.cfg", replay=("slice", "session")),
+            mc("junk", "MCJunk", "MCJunk_quick.cfg", "MCJunk_thorough.cfg", replay=("slice", "verdict", "verdict,search")),
+            rec("slice", "mut", "TraceSlice", 1200, 30000, 3, 10),
+        ],
+        rule=SLICE_RULE,
+        explanation="The specification IS the independent codec (written from the layout, encode and decode halves separately, reconciled by TLC). "
+                    "MC: the decoder is total and three-valued on the mutation universe (length field at every guard +-1, every bit of HTYP / MSIN / type-info, "
+                    "zeroed length prefixes, other storage mode, truncation, duplication) and the hand-written dialect instances decode as stated. "
+                    "A: every mutant replayed through dlt_message and compared with the reference verdict (class, consumed length, every field); every builder "
+                    "message serialised by the crate and compared byte for byte with EncMessage. B: random messages, 3-6 byte-level mutants each in both "
+                    "storage-header modes, and 14 dialect encodings per iteration; TLC recomputes every verdict.",
+    ),
+    "C03": dict(
+        sany=["DltCodec.tla", "trace/TraceSlice.tla"],
+        steps=[
+            mc("mutate", "MCMutate", "MCMutate_quick.cfg", "MCMutate_thorough.cfg", replay=("slice", "nopanic"), workers=12),
+            rec("slice", "hostile", "TraceSlice", 60, 2000, 3, 10),
+        ],
+        rule=SLICE_RULE,
+        explanation="The outcome alphabet of every trace action is {msg, filtered, inc, rej, none, skipped, found, ok, err}: `panic` (caught by catch_unwind; the harness "
+                    "is built with overflow-checks and debug-assertions) is not producible by the specification, so one panicking call rejects the trace. Inputs are aimed "
+                    "by the model's guards: cuts at every length comparison +-1, declared lengths around the header sizes, NOAR extremes, MSIN flips, >64 KiB buffers, "
+                    "65535-byte names and strings, all-0xFF; every entry point named in the property is driven on each input, and every returned message is re-serialised "
+                    "and measured (as_bytes, byte_len, Argument::len / valid / as_bytes in both orders). Model-guided exploration, not a proof of panic freedom.",
+    ),
+    "C04": dict(
+        sany=["SliceSession.tla", "mc/MCSession.tla", "trace/TraceSlice.tla"],
+        steps=[
+            mc("session", "MCSession", "MCSession_quick.cfg", "MCSession_thorough.cfg", replay=("slice", "frames")),
+            mc("mutate", "MCMutate", "MCMutate_quick.cfg", "MCMutate_thorough.cfg", replay=("slice", "frame"), workers=12),
+            rec("slice", "session", "TraceSlice", 1000, 30000, 2, 8),
+        ],
+        rule=SLICE_RULE + " Sessions are non-trivial when they make at least two calls.",
+        explanation="MC: SliceSession over buffers of up to 2 (quick) / 3 (thorough) pieces from 10 tiny templates (incl. arguments shorter / longer than the declared payload, "
+                    "NOAR too large / small, declared length below the headers) and junk, every sequence of Parse(filter in 5 configs) / Consume: Progress (action property), "
+                    "InBuffer, Aligned (cursor is always a boundary given by the length fields), FilterIndependentCursor, ParseConsumeAgree; MCMutate adds Consumption "
+                    "(consumed = offset + declared length) on every mutant. A: every buffer x filter replayed as a whole repeat-until-error loop, every step compared. "
+                    "B: random streams with corrupted payload encodings and junk, stepped by the real functions; TLC recomputes every cursor.",
+    ),
+    "C05": dict(
+        sany=["DltCodec.tla", "mc/MCCodec.tla", "trace/TraceSlice.tla"],
+        steps=[
+            mc("codec", "MCCodec", "MCCodec_quick.cfg", "MCCodec_thorough.cfg", replay=("slice", "prefix")),
+            rec("slice", "prefix", "TraceSlice", 500, 12000, 2, 8),
+        ],
+        rule=SLICE_RULE + " One event / case = all cuts of one message.",
+        explanation="MC: theorem PrefixIncomplete on every builder message: every proper prefix decodes to `inc`; the skipper gives `none` on empty input and `inc` on every other "
+                    "proper prefix. A: every cut of every builder message through dlt_message and dlt_consume_msg: class `inc`, hint in 1..missing. "
+                    "B: random larger messages (cuts inside 128-bit values, length prefixes, storage header), all cuts in one event, validated by TLC incl. the hint bound.",
+    ),
+    "C06": dict(
+        sany=["SliceSession.tla", "mc/MCJunk.tla", "trace/TraceSlice.tla"],
+        steps=[
+            mc("junk", "MCJunk", "MCJunk_quick.cfg", "MCJunk_thorough.cfg", replay=("slice", "search", "search,junk")),
+            mc("session", "MCSession", "MCSession_quick.cfg", "MCSession_thorough.cfg"),
+            rec("slice", "junk", "TraceSlice", 1000, 30000, 2, 8),
+        ],
+        rule=SLICE_RULE,
+        explanation="MC: all junk strings over {D, L, T, 0x01, X} up to length 5 (quick, 3906) / 7 (thorough, 97656): the search equals the declarative least occurrence, "
+                    "junk ++ message parses like the message alone, and junk msg junk msg junk is recovered completely and in order. A: all of them replayed "
+                    "(search, parse, skip). B: random junk between random messages; sessions over streams with junk.",
+        exhaustive={"quick": False, "thorough": False},
+    ),
+    "C09": dict(
+        sany=["DltFilter.tla", "mc/MCFilter.tla", "trace/TraceSlice.tla"],
+        steps=[
+            mc("filter", "MCFilter", "MCFilter_quick.cfg", "MCFilter_thorough.cfg", replay=("slice", "filter"), workers=12),
+            mc("session", "MCSession", "MCSession_quick.cfg", "MCSession_thorough.cfg"),
+            rec("slice", "filter", "TraceSlice", 1000, 30000, 2, 8),
+        ],
+        rule=SLICE_RULE,
+        explanation="MC: DroppedOp (decision procedure in the parser's order) = Dropped (declarative rule of the statement) for every numeric level (quick: 0,1,3,6,7,255; thorough: "
+                    "all 256) x all 128 MSTP/MTIN codes, and for every combination of app/ctx/ecu lists (absent, empty, one, two, duplicate) x declared counts x messages with / "
+                    "without extended header and ECU id; OutOfRangeLevelsIgnored; FilterOnlyReplaces (filtered marker carries the payload length and the same consumption, kept "
+                    "messages identical). A: every (config, message) pair through DltFilterConfig -> ProcessedDltFilterConfig -> dlt_message. B: random configs (ids drawn "
+                    "from the message) x random messages, both From conversions compared.",
+    ),
+    "C13": dict(
+        sany=["DltCodec.tla", "mc/MCConstruct.tla", "trace/TraceSlice.tla"],
+        steps=[
+            mc("construct", "MCConstruct", "MCConstruct_quick.cfg", "MCConstruct_thorough.cfg", replay=("slice", "verdict")),
+            rec("slice", "construct", "TraceSlice", 1500, 40000, 2, 8),
+        ],
+        rule=SLICE_RULE,
+        explanation="MC: all type lists of length <= 2 (quick) / 3 (thorough) over the 16 supported signal types x both byte orders: the exact payload decodes to one argument per "
+                    "type, in order, with independently written expected values; trailing bytes ignored; every proper prefix refused; invalid UTF-8 refused; fixed-point kinds "
+                    "are outside the property (any non-panicking result). A: all of them replayed. B: random lists up to 20 types, full-range values, mutated payloads, wrong byte order.",
+    ),
+    "C16": dict(
+        sany=["DltCodec.tla", "mc/MCMutate.tla", "trace/TraceSlice.tla"],
+        steps=[
+            mc("mutate", "MCMutate", "MCMutate_quick.cfg", "MCMutate_thorough.cfg", replay=("slice", "stable"), workers=12),
+            rec("slice", "stable", "TraceSlice", 700, 20000, 3, 10),
+        ],
+        rule=SLICE_RULE,
+        explanation="MC: theorem StableThm on every mutant the reference decoder accepts (parser outputs outside the writer's range: reserved codings, unknown message types, odd "
+                    "type-info bits, NUL-cut strings, left-over payload bytes). B (primary): every message the real parser returns on canonical, mutated and dialect input is "
+                    "chained parse -> as_bytes -> parse -> as_bytes; TLC checks as_bytes = EncMessage, and whenever the re-serialisation has its declared length: identical "
+                    "message, nothing left over, identical bytes.",
+    ),
+    "C19": dict(
+        sany=["DltCodec.tla", "mc/MCZStr.tla", "trace/TraceSlice.tla"],
+        steps=[
+            mc("zstr", "MCZStr", "MCZStr_quick.cfg", "MCZStr_thorough.cfg", replay=("slice", "verdict")),
+            rec("slice", "zstr", "TraceSlice", 2000, 60000, 2, 8),
+        ],
+        rule=SLICE_RULE,
+        explanation="MC: all byte strings of length <= 4 (quick, 11 111) / 5 (thorough, 111 111) over {NUL, 'A', and the bytes of complete / incomplete 2-, 3-, 4-byte UTF-8 "
+                    "sequences, 0xFF} x all sizes: ZStr = the declarative rule (consumes size; longest valid-UTF-8 prefix of the bytes before the first NUL), the UTF-8 automaton "
+                    "= the declarative well-formedness table, and the ids of a message obey the same rule. A: all replayed through dlt_zero_terminated_string and dlt_message. "
+                    "B: random long strings, sizes up to 65535, multi-byte sequences cut by the size limit and by NULs.",
+    ),
 }
